@@ -378,6 +378,8 @@ class Engine:
         """let-abstraction: large real-valued entries of an array bound to a variable are replaced by fresh
         constants with defining equalities (keeps later obligations small; semantically neutral)"""
         out, changed = [], False
+        if self.contract is not None and not self.contract.let_abstraction:
+            return arr
         for x in arr.data:
             if isinstance(x, z3.ArithRef) and term_size(x, self.NAME_THRESHOLD) >= self.NAME_THRESHOLD:
                 c = self.fresh(f"let_{name}", TReal)
